@@ -118,7 +118,7 @@ double MetaOptimizer::doStep()
 
   int tolTest = 0;
   double tol = getStopCondition()->getTolerance();
-  if (stepCount_ <= n_)
+  if (stepCount_ <= n_ && initialValue_ > tol)
   {
     tol = initialValue_ * pow(10, stepCount_ * precisionStep_);
   }
